@@ -18,6 +18,7 @@ def newsOf : List (Op Input Date) → List (Format × Input × Nat)
   | [] => []
   | .new f i p :: r => (f, i, p) :: newsOf r
   | .write _ _ _ _ _ _ :: r => newsOf r
+  | .setGlobal _ :: r => newsOf r
 
 /-! ### lists -/
 
@@ -351,7 +352,7 @@ theorem buildFor_repaired (c : Codec Input Item Node Bytes Date Content) (st : S
 /-- Everything a write call can do, for either variant of the code: the global precision and the constructor
     arguments of all writers are as before; either no file changed (skipped / raised) or exactly the reported one. -/
 theorem writeStep_shape (sem : Sem) (c : Codec Input Item Node Bytes Date Content) (st : St Input Node Bytes Date)
-    (i : Nat) (kind : Kind) (file : Option String) (mode : Mode) (a : Bool) (date : Date) :
+    (i : Nat) (kind : Kind) (file : Option String) (mode : Mode) (a : Answer) (date : Date) :
     ∀ r, writeStep sem c st i kind file mode a date = r →
     r.1.gprec = st.gprec ∧ argsOf r.1 = argsOf st ∧
     ((r.1.fs = st.fs ∧ (r.2 = .skipped ∨ ∃ e, r.2 = .failed e)) ∨
@@ -370,39 +371,45 @@ theorem writeStep_shape (sem : Sem) (c : Codec Input Item Node Bytes Date Conten
     · rename_i h1
       split
       · simp
-      · rename_i h2
-        have hfr := buildFor_frame sem c st i w kind date hw
-        rcases hb : buildFor sem c st i w kind date with ⟨st2, _ | e⟩
-        · rw [hb] at hfr
-          simp only
-          split
-          · exact ⟨hfr.2.2, hfr.2.1, Or.inl ⟨hfr.1, Or.inr ⟨_, rfl⟩⟩⟩
-          · rename_i h3
+      · split
+        · simp
+        · rename_i h2
+          have hfr := buildFor_frame sem c st i w kind date hw
+          rcases hb : buildFor sem c st i w kind date with ⟨st2, _ | e⟩
+          · rw [hb] at hfr
+            simp only
             split
             · exact ⟨hfr.2.2, hfr.2.1, Or.inl ⟨hfr.1, Or.inr ⟨_, rfl⟩⟩⟩
-            · refine ⟨hfr.2.2, hfr.2.1, Or.inr ⟨w, _, _, hw, rfl, h3, ?_, rfl, ?_⟩⟩
-              · intro hk
-                simp [h3, hk.1, hk.2] at h2
-              · show setFile st2.fs _ _ = _
-                rw [hfr.1]
-        · rw [hb] at hfr
-          exact ⟨hfr.2.2, hfr.2.1, Or.inl ⟨hfr.1, Or.inr ⟨_, rfl⟩⟩⟩
+            · rename_i h3
+              have hne : resolveName c w kind file ≠ "" := by
+                intro he
+                simp [he] at h3
+              split
+              · exact ⟨hfr.2.2, hfr.2.1, Or.inl ⟨hfr.1, Or.inr ⟨_, rfl⟩⟩⟩
+              · refine ⟨hfr.2.2, hfr.2.1, Or.inr ⟨w, _, _, hw, rfl, hne, ?_, rfl, ?_⟩⟩
+                · intro hk
+                  simp [hne, hk.1, hk.2] at h2
+                · show setFile st2.fs _ _ = _
+                  rw [hfr.1]
+          · rw [hb] at hfr
+            exact ⟨hfr.2.2, hfr.2.1, Or.inl ⟨hfr.1, Or.inr ⟨_, rfl⟩⟩⟩
 
 /-- The decision table of a write call, in terms of the pure `render` only. -/
 def expected (c : Codec Input Item Node Bytes Date Content) (st : St Input Node Bytes Date)
-    (w : Writer Input Node Date) (kind : Kind) (file : Option String) (mode : Mode) (a : Bool) (date : Date) :
+    (w : Writer Input Node Date) (kind : Kind) (file : Option String) (mode : Mode) (a : Answer) (date : Date) :
     Outcome Bytes :=
   let name := resolveName c w kind file
   if name = "" && !(w.fmt == .xml && kind == .scenarioOnly) then .skipped else
+  if name ≠ "" && (st.fs name).isSome && askRaises mode a then .failed .other else
   if name ≠ "" && (st.fs name).isSome && keepExisting mode a then .skipped else
   match render c w.fmt w.inp kind w.prec date with
   | .error e => .failed e
-  | .ok b => if name = "" then .failed .other else .wrote name b
+  | .ok b => if name = "" || st.unwritable name then .failed .other else .wrote name b
 
 /-- The mechanism (reset, install, header, loops reading the global at every site, restore, dump from the document)
     produces exactly the decision table over the pure `render` at the writer's own arguments. -/
 theorem writeStep_repaired_outcome (c : Codec Input Item Node Bytes Date Content) (st : St Input Node Bytes Date)
-    (i : Nat) (w : Writer Input Node Date) (kind : Kind) (file : Option String) (mode : Mode) (a : Bool) (date : Date)
+    (i : Nat) (w : Writer Input Node Date) (kind : Kind) (file : Option String) (mode : Mode) (a : Answer) (date : Date)
     (hw : st.ws[i]? = some w) :
     (writeStep repaired c st i kind file mode a date).2 = expected c st w kind file mode a date := by
   unfold writeStep expected
@@ -411,31 +418,33 @@ theorem writeStep_repaired_outcome (c : Codec Input Item Node Bytes Date Content
   · rfl
   · split
     · rfl
-    · have hb := buildFor_repaired c st i w kind date hw
-      unfold render
-      cases hm : mkNodes (creator c w.fmt w.prec) (itemsOf c w.inp kind) with
-      | error e =>
-        rw [hm] at hb
-        rcases hbf : buildFor repaired c st i w kind date with ⟨st2, o⟩
-        rw [hbf] at hb
-        simp only at hb
-        subst hb
-        rfl
-      | ok ns =>
-        rw [hm] at hb
-        simp only at hb
-        rw [hb]
-        simp only
-        split
-        · rfl
-        · have hg : (DocOf st i w (some date) ns).ws[i]? = some { w with date := some date, root := ns } :=
-            setWriter_get st i w _ hw
-          simp only [hg]
+    · split
+      · rfl
+      · have hb := buildFor_repaired c st i w kind date hw
+        unfold render
+        cases hm : mkNodes (creator c w.fmt w.prec) (itemsOf c w.inp kind) with
+        | error e =>
+          rw [hm] at hb
+          rcases hbf : buildFor repaired c st i w kind date with ⟨st2, o⟩
+          rw [hbf] at hb
+          simp only at hb
+          subst hb
+          rfl
+        | ok ns =>
+          rw [hm] at hb
+          simp only at hb
+          rw [hb]
+          simp only
+          split
+          · rfl
+          · have hg : (DocOf st i w (some date) ns).ws[i]? = some { w with date := some date, root := ns } :=
+              setWriter_get st i w _ hw
+            simp only [hg]
 
 /-! ### histories -/
 
 theorem step_gprec_write (sem : Sem) (c : Codec Input Item Node Bytes Date Content) (st : St Input Node Bytes Date)
-    (i : Nat) (kind : Kind) (file : Option String) (mode : Mode) (a : Bool) (date : Date) :
+    (i : Nat) (kind : Kind) (file : Option String) (mode : Mode) (a : Answer) (date : Date) :
     (step sem c st (.write i kind file mode a date)).1.gprec = st.gprec :=
   (writeStep_shape sem c st i kind file mode a date _ rfl).1
 
@@ -446,6 +455,7 @@ theorem argsOf_step (sem : Sem) (c : Codec Input Item Node Bytes Date Content) (
   | write i kind file mode a date =>
     have := (writeStep_shape sem c st i kind file mode a date _ rfl).2.1
     simpa [step, newsOf] using this
+  | setGlobal g => simp [step, argsOf, newsOf]
 
 theorem newsOf_append (l1 l2 : List (Op Input Date)) : newsOf (l1 ++ l2) = newsOf l1 ++ newsOf l2 := by
   induction l1 with
@@ -493,6 +503,7 @@ def precAfter (g : Nat) : List (Op Input Date) → Nat
   | [] => g
   | .new _ _ p :: r => precAfter p r
   | .write _ _ _ _ _ _ :: r => precAfter g r
+  | .setGlobal g' :: r => precAfter g' r
 
 theorem gprec_run (sem : Sem) (c : Codec Input Item Node Bytes Date Content) :
     ∀ (ops : List (Op Input Date)) (st : St Input Node Bytes Date),
@@ -503,6 +514,9 @@ theorem gprec_run (sem : Sem) (c : Codec Input Item Node Bytes Date Content) :
     rfl
   | .write i k f m a d :: r, st => by
     rw [runSt_cons, gprec_run sem c r, step_gprec_write]
+    rfl
+  | .setGlobal g :: r, st => by
+    rw [runSt_cons, gprec_run sem c r]
     rfl
 
 end CR.Writer
